@@ -24,6 +24,29 @@ func registerMisc(p *Program) {
 	p.Intr[RegenPrefix+"x/data/v3/server/hasher.NewHasher"] = func(x *Exec, c *CallCtx) Value {
 		return TupleV{ModelV{&RecorderModel{name: "hasher", env: x.Env, uf: true}}, IfaceV{}}
 	}
+	// genesis validation builds an in-memory ORM database and imports the JSON document into
+	// it: here the database is the table model with arbitrary content (the document is "any
+	// document"), ImportJSON/ValidateJSON succeed (ValidateJSON = every row passes the module's
+	// validators, which is what the row invariants assume on every row that is read)
+	orm := "github.com/cosmos/cosmos-sdk/orm/"
+	opaque := func(kind string) Intrinsic {
+		return func(x *Exec, c *CallCtx) Value { return ModelV{&NopModel{name: kind}} }
+	}
+	p.Intr["github.com/cometbft/cometbft-db.NewMemDB"] = func(x *Exec, c *CallCtx) Value {
+		return PtrV{Obj: x.newObj(OpaqueV{Kind: "memdb"}, "memdb")}
+	}
+	p.Intr[RegenPrefix+"types/v2/ormutil.NewStoreAdapter"] = opaque("kvstore")
+	p.Intr[orm+"model/ormtable.NewBackend"] = opaque("ormbackend")
+	p.Intr[orm+"model/ormtable.WrapContextDefault"] = func(x *Exec, c *CallCtx) Value {
+		x.Env.ctxState(x)
+		return ModelV{&CtxModel{env: x.Env}}
+	}
+	p.Intr[orm+"model/ormdb.NewModuleDB"] = func(x *Exec, c *CallCtx) Value {
+		return TupleV{ModelV{&NopModel{name: "ModuleDB"}}, IfaceV{}}
+	}
+	p.Intr[orm+"types/ormjson.NewRawMessageSource"] = func(x *Exec, c *CallCtx) Value {
+		return TupleV{ModelV{&NopModel{name: "jsonsource"}}, IfaceV{}}
+	}
 	for path := range p.ByPath {
 		if strings.HasPrefix(path, RegenPrefix+"api/") {
 			p.Intr[path+".NewStateStore"] = func(x *Exec, c *CallCtx) Value {
